@@ -153,6 +153,10 @@ def invoke(fid: str, kwargs: dict[str, Any], res: Any = None) -> Any:
         # a custom output_picker: the function returns a mapping keyed by the (final) output names, listed in REVERSED
         # order so that a positional pick would be wrong
         res = {o: value(o) for o in reversed(outs)}
+    elif fd.get("rettuple") and len(outs) == 1 and not ishape:
+        # the single result is itself a tuple (bounds, a shape, a (mean, std) pair): still ONE value for ONE output name
+        from .terms import tuple_term
+        res = tuple_term(value(outs[0]))
     else:
         res = value(outs[0]) if len(outs) == 1 else tuple(value(o) for o in outs)
     emit("ret")
